@@ -62,6 +62,12 @@ type CConn struct {
 	// SCTP: a multi-stream association (diam.SCTPConn over the in-memory backend, dial path);
 	// every message arrives as one chunk on its HMsg.Stream.
 	SCTP bool `json:"sctp,omitempty"`
+	// CloseNotify: the handler of the connection's first message asks for the CloseNotify channel
+	// (from then on the library keeps a read outstanding on the transport while handlers run).
+	CloseNotify bool `json:"close_notify,omitempty"`
+	// EOFEarly: the peer closes its side right behind the last fragment instead of at the end of
+	// the case; what it sent before must still be handled one message at a time, in order.
+	EOFEarly bool `json:"eof_early,omitempty"`
 }
 
 type Step struct {
@@ -197,6 +203,7 @@ func (m *model) advance(ci int) {
 }
 
 type hooks struct {
+	eof        func(ci int)
 	register   func()
 	feed       func(ci int, frag []byte)
 	release    func(ci, seq int)
@@ -215,6 +222,9 @@ func drive(c *Case, h hooks) *ev.Failure {
 				m.delivered[ci]++
 			}
 			h.feed(ci, f)
+			if m.next[ci] == len(m.frags[ci]) && c.Conns[ci].EOFEarly && h.eof != nil {
+				h.eof(ci)
+			}
 		}
 		m.advance(ci)
 	}
@@ -360,7 +370,7 @@ func runCase(c Case) *ev.Failure {
 	}
 
 	mux := diam.NewServeMux()
-	handle := func(_ diam.Conn, m *diam.Message) {
+	handle := func(hc diam.Conn, m *diam.Message) {
 		ci, ok1 := u32(m, codeConn)
 		seq, ok2 := u32(m, codeSeq)
 		if !ok1 || !ok2 || ci < 0 || ci >= n || seq < 1 || seq > len(c.Conns[ci].Msgs) {
@@ -373,6 +383,12 @@ func runCase(c Case) *ev.Failure {
 			return
 		}
 		lg.add(event{conn: ci, seq: seq})
+		if seq == 1 && c.Conns[ci].CloseNotify {
+			if cn, ok := hc.(diam.CloseNotifier); ok {
+				ch := cn.CloseNotify()
+				_ = ch
+			}
+		}
 		b := c.Conns[ci].Msgs[seq-1]
 		switch b.Beh {
 		case "gosched":
@@ -468,6 +484,7 @@ func runCase(c Case) *ev.Failure {
 				}
 			},
 			feed:    func(ci int, frag []byte) { conns[ci].Feed(frag) },
+			eof:     func(ci int) { conns[ci].FeedEOF() },
 			release: open,
 			checkpoint: func(m *model, why string) *ev.Failure {
 				ok := lg.wait(dispatchDeadline, func() bool {
@@ -617,6 +634,8 @@ func genCase(t *rapid.T) Case {
 			}
 			cc.Msgs = append(cc.Msgs, m)
 		}
+		cc.CloseNotify = rapid.IntRange(0, 3).Draw(t, "close-notify") == 0
+		cc.EOFEarly = rapid.IntRange(0, 3).Draw(t, "eof-early") == 0
 		cc.Pattern = rapid.SampledFrom([]string{"one", "frags", "bytes", "one", "frags"}).Draw(t, "pattern")
 		if cc.SCTP {
 			cc.Pattern = "chunk-per-message"
@@ -678,6 +697,15 @@ func classify(c Case) (bool, []string) {
 			add("path:accept")
 		}
 		add("pattern:" + cc.Pattern)
+		if cc.CloseNotify {
+			add("close-notify-requested-by-first-handler")
+		}
+		if cc.EOFEarly {
+			add("peer-closes-right-behind-its-last-byte")
+			if cc.CloseNotify {
+				add("close-notify+early-eof")
+			}
+		}
 		for _, m := range cc.Msgs {
 			add("beh:" + m.Beh)
 			if m.Beh == "hold" {
@@ -760,7 +788,7 @@ func classify(c Case) (bool, []string) {
 
 var prop = ev.Register(&ev.Prop[Case]{
 	ID: "C08", Name: "dispatch",
-	Rule: "1..4 connections (accept path via Server.Serve on a memnet.Listener and dial path via diam.NewConn, or a multi-stream SCTP association over the in-memory backend whose messages arrive one chunk each on streams {0,1,2,7}; one shared ServeMux, or (1 in 5) a nil Handler = diam.DefaultServeMux), 1..8 numbered messages each, arriving in one segment / one byte at a time / arbitrary fragments, a scripted global interleaving of the fragments, handler behaviours {return, Gosched x k, sleep <= 1 ms, hold until released}, scripted release points and scripted registrations of further handlers on the mux from another goroutine; before every release each connection must have reached the point the model 'one handler at a time per connection, connections independent' predicts (bounded wait 5 s), and the enter/exit log of each connection must read enter 1, exit 1, enter 2, ...; non-trivial = >= 2 connections, >= 3 messages inside one segment on one of them and >= 1 held handler",
+	Rule: "1..4 connections (accept path via Server.Serve on a memnet.Listener and dial path via diam.NewConn, or a multi-stream SCTP association over the in-memory backend whose messages arrive one chunk each on streams {0,1,2,7}; one shared ServeMux, or (1 in 5) a nil Handler = diam.DefaultServeMux), 1..8 numbered messages each, arriving in one segment / one byte at a time / arbitrary fragments, a scripted global interleaving of the fragments, handler behaviours {return, Gosched x k, sleep <= 1 ms, hold until released; optionally the first handler requests CloseNotify}, optionally the peer's EOF right behind its last byte, scripted release points and scripted registrations of further handlers on the mux from another goroutine; before every release each connection must have reached the point the model 'one handler at a time per connection, connections independent' predicts (bounded wait 5 s), and the enter/exit log of each connection must read enter 1, exit 1, enter 2, ...; non-trivial = >= 2 connections, >= 3 messages inside one segment on one of them and >= 1 held handler",
 	Gen:  genCase, Run: runCase, Classify: classify, Attempts: 5,
 })
 
@@ -792,4 +820,4 @@ func TestC08RegisterWhileHeld(t *testing.T) {
 		}
 	})
 }
-func TestReplay(t *testing.T)      { ev.Replay(t) }
+func TestReplay(t *testing.T) { ev.Replay(t) }
